@@ -638,7 +638,12 @@ def run(prog, rep, tier):
     check_dead_computations(prog, rep, ['tenpy/models/model.py', 'tenpy/networks/terms.py'])
     from ..flow import check_undefined_attrs
     rep.rule('ATTR-defined', 'every self.X read names an attribute bound somewhere in the class family')
-    check_undefined_attrs(prog, rep, ['tenpy/models/model.py', 'tenpy/networks/terms.py'])
+    import glob as _glob
+    import os as _os
+    predefined = sorted(_os.path.relpath(p_, prog.repo) for p_ in _glob.glob(
+        _os.path.join(prog.repo, 'tenpy', 'models', '*.py')) if not p_.endswith('__init__.py'))
+    check_undefined_attrs(prog, rep, sorted(set(['tenpy/models/model.py', 'tenpy/networks/terms.py'] +
+                                                predefined)))
     return rep.finish(
         level='other',
         explanation='plus_hc / explicit_plus_hc protocol decided for %d sibling add_* methods of '
